@@ -8,7 +8,7 @@ if ! git diff --quiet; then echo "refusing: /repo has uncommitted changes"; exit
 if ! git apply --check "$patch" 2>/dev/null; then echo "PATCH-DOES-NOT-APPLY $id $patch"; exit 3; fi
 git apply "$patch"
 cd /verif
-out=$(./check "$id" --tier "$tier" 2>&1 | tr -d "\000"); rc=${PIPESTATUS[0]}
+./check "$id" --tier "$tier" > /tmp/selftest.$$.out 2>&1; rc=$?; out=$(tr -d "\000" < /tmp/selftest.$$.out); rm -f /tmp/selftest.$$.out
 git -C /repo checkout -- . ; git -C /repo clean -fdq -- src tests 2>/dev/null
 case $rc in
   1) echo "DETECTED $id $(basename $(dirname $patch))/$(basename $patch)"; echo "$out" | grep -A1 '^VIOLATION' | head -8;;
